@@ -156,9 +156,11 @@ fn eval_expr_impl(
             assign(shell, lvalue, expr_eval, depth)?
         }
         ast::ArithmeticExpr::UnaryAssignment(op, lvalue) => {
-            apply_unary_assignment_op(shell, lvalue, *op, depth)?
+            let lvalue = pin_subscript(shell, lvalue, depth)?;
+            apply_unary_assignment_op(shell, &lvalue, *op, depth)?
         }
         ast::ArithmeticExpr::BinaryAssignment(op, lvalue, operand) => {
+            let lvalue = pin_subscript(shell, lvalue, depth)?;
             let value = apply_binary_op(
                 shell,
                 *op,
@@ -166,11 +168,31 @@ fn eval_expr_impl(
                 operand,
                 depth,
             )?;
-            assign(shell, lvalue, value, depth)?
+            assign(shell, &lvalue, value, depth)?
         }
     };
 
     Ok(value)
+}
+
+/// Evaluates the subscript of an array-element target and returns the target with the
+/// resulting literal subscript, so that a read-modify-write (`a[i++] += 1`, `a[i++]++`)
+/// evaluates the subscript once and reads and writes the same element.
+fn pin_subscript(
+    shell: &mut Shell<impl extensions::ShellExtensions>,
+    lvalue: &ast::ArithmeticTarget,
+    depth: u32,
+) -> Result<ast::ArithmeticTarget, EvalError> {
+    match lvalue {
+        ast::ArithmeticTarget::ArrayElement(name, index_expr) => {
+            let index = eval_expr_impl(index_expr, shell, depth)?;
+            Ok(ast::ArithmeticTarget::ArrayElement(
+                name.clone(),
+                Box::new(ast::ArithmeticExpr::Literal(index)),
+            ))
+        }
+        ast::ArithmeticTarget::Variable(_) => Ok(lvalue.clone()),
+    }
 }
 
 fn get_var_value<'a>(
